@@ -111,7 +111,10 @@ class Check(common.Check):
         for _ in range(rng.choice([rng.randint(1, 6), rng.randint(4, 16), rng.randint(10, 40)])):
             r = rng.random()
             if r < 0.16:
-                ops.append('wait ' + fq(self.dy(rng, 0, 64, (1, 2, 4, 8, 16))))
+                w = self.dy(rng, 0, 64, (1, 2, 4, 8, 16))
+                if not approx and rng.random() < 0.15:       # a routine that waited 8.0000000002 beats
+                    w += Fraction(1, 2 ** rng.choice([33, 36, 40]))
+                ops.append('wait ' + fq(w))
             elif r < 0.25:
                 v = tempo()
                 q = rng.random()
@@ -153,8 +156,10 @@ class Check(common.Check):
                     ref = '-'
                 else:
                     refv = value() if rng.random() < 0.7 else Fraction(rng.randint(-30, 60))
-                    if rng.random() < 0.3 and quant > 0:     # exactly on the grid
+                    if rng.random() < 0.3 and quant > 0:     # exactly on the grid, or a hair beside it
                         refv = quant * rng.randint(-6, 12) + phase
+                        if not approx and rng.random() < 0.6:
+                            refv += rng.choice([1, -1]) * Fraction(1, 2 ** rng.choice([34, 36, 40, 44]))
                     ref = num(refv, refv.denominator == 1 and rng.random() < 0.5)
                 kind = 'playat' if ref == '-' and rng.random() < 0.35 else 'ntog'
                 if kind == 'playat':
@@ -187,19 +192,51 @@ class Check(common.Check):
             c['approx'] = True
         return c
 
+    def gen_rt_case(self, rng):
+        """real-time mode: play(quant) through every entry point, called from the MAIN thread"""
+        plays = []
+        for _ in range(rng.randint(2, 6)):
+            quant = Fraction(rng.choice([1, 1, 2, 3, 4, 4, 8]), rng.choice([1, 1, 2]))
+            phase = quant * rng.randint(-7, 7) / 8 if rng.random() < 0.6 else Fraction(0)
+            via = rng.choice(['clock', 'rplay', 'rrun', 'deco', 'resume'])
+            entry = [num(quant, quant.denominator == 1 and rng.random() < 0.6),
+                     num(phase, phase.denominator == 1 and rng.random() < 0.6), via]
+            plays.append(entry)
+            if rng.random() < 0.5:                       # a second part with the same quant
+                plays.append(entry[:2] + [rng.choice(['clock', 'rplay', 'deco'])])
+        c = {'rt': True, 'tempo': fq(Fraction(rng.choice([1, 2, 4, 3, 5]), rng.choice([1, 1, 2, 4]))),
+             'skip': fq(self.dy(rng, 0, 40)), 'tick': rng.choice(['1/16384', '1/1024', '1/65536']), 'plays': plays}
+        if rng.random() < 0.4:
+            c['beats'] = fq(self.dy(rng, -8, 30))
+        return c
+
     def gen(self, rng, n):
-        return [self.gen_case(rng) for _ in range(n)]
+        cases = [self.gen_case(rng) for _ in range(n)]
+        cases += [self.gen_rt_case(rng) for _ in range(max(6, n // 60))]
+        return cases
 
     # ------------------------------------------------------------------ runners
     def impl(self, cases):
-        res, err = common.run_impl('c12', 'run', {'cases': cases})
+        nrt = [c for c in cases if not c.get('rt')]
+        rt = [c for c in cases if c.get('rt')]
+        res, err = common.run_impl('c12', 'run', {'cases': nrt})
         if res is None:
             self.notes.append(err)
-        return res
+            return None
+        res2 = []
+        if rt:                                     # real-time mode needs its own process
+            res2, err = common.run_impl('c12', 'run_rt', {'cases': rt})
+            if res2 is None:
+                self.notes.append(err)
+                return None
+        a, b = iter(res), iter(res2)
+        return [next(b) if c.get('rt') else next(a) for c in cases]
 
     def model(self, cases):
         lines = []
         for c in cases:
+            if c.get('rt'):
+                continue                           # checked by the oracle on the real clock only
             lines.append('reset')
             lines.append(f"init {c['init']} {c.get('start', '0')}")
             lines.extend(c['ops'])
@@ -215,11 +252,14 @@ class Check(common.Check):
                 res.append(cur)
             else:
                 cur.append(line)
-        return res
+        it = iter(res)
+        return [None if c.get('rt') else next(it) for c in cases]
 
     DISCONT = ('q bar', 'q bib', 'q nextbar', 'q ntog', 'q playat', 'bpb')
 
     def compare(self, case, io, mo):
+        if case.get('rt'):
+            return None
         if len(io) != len(mo):
             return {'impl': io, 'model': mo}
         if io[0].startswith('E:') or mo[0].startswith('E:'):
@@ -253,7 +293,35 @@ class Check(common.Check):
         return None
 
     # ------------------------------------------------------------------ oracle
+    def rt_oracle(self, case, out):
+        if out.get('error'):
+            return {'what': f'real-time play from the main thread: {out["error"]}', 'signature': 'tempo:rt-play'}
+        origin = F(out['origin'])
+        prev = None
+        for (q, p, via), (before, sched, after) in zip(case['plays'], out['plays']):
+            q, p = numval(q), numval(p)
+            if sched.startswith('E:'):
+                return {'what': f'play({via}, quant {q}, phase {p}) from the main thread left {sched} in the clock queue',
+                        'signature': 'tempo:rt-play'}
+            b0, g, b1 = F(before), F(sched), F(after)
+
+            def grid(ref):
+                return origin + p + math.ceil((ref - origin - p) / q) * q
+            if ((g - origin - p) / q).denominator != 1 or not (grid(b0) <= g <= grid(b1)):
+                return {'what': f'real-time play({via}, quant {float(q)}, phase {float(p)}) from the main thread at beat '
+                                f'{float(b0)}…{float(b1)}: the task is queued at beat {float(g)} ({sched}), the grid points '
+                                f'not before the call are {float(grid(b0))} / {float(grid(b1))}',
+                        'signature': 'tempo:rt-play'}
+            if prev and prev[0] == (q, p) and ((g - prev[1]) / q).denominator != 1:
+                return {'what': f'two parts played with quant {float(q)} from the main thread start at beats '
+                                f'{float(prev[1])} and {float(g)}: not a whole number of quants apart',
+                        'signature': 'tempo:rt-play'}
+            prev = ((q, p), g)
+        return None
+
     def oracle(self, case, out):
+        if case.get('rt'):
+            return self.rt_oracle(case, out)
         approx = bool(case.get('approx'))
         tol = TOL if approx else Fraction(0)
         lines = ['init'] + case['ops']
@@ -418,6 +486,8 @@ class Check(common.Check):
 
     # ------------------------------------------------------------------ evidence
     def nontrivial(self, case, out):
+        if case.get('rt'):
+            return bool(out.get('plays'))
         changed = False
         for line in case['ops']:
             w = line.split()
@@ -430,6 +500,9 @@ class Check(common.Check):
     def histogram(self, cases, outs):
         h = {}
         for c, o in zip(cases, outs):
+            if c.get('rt'):
+                h['rt-play-from-main-thread'] = h.get('rt-play-from-main-thread', 0) + len(c['plays'])
+                continue
             for line, res in zip(['init'] + c['ops'], o):
                 w = line.split()
                 key = ' '.join(w[:2]) if w[0] == 'q' else w[0]
@@ -438,9 +511,11 @@ class Check(common.Check):
                 h[key] = h.get(key, 0) + 1
         h['histories'] = len(cases)
         h['approx_histories'] = sum(1 for c in cases if c.get('approx'))
-        h['max_len'] = max((len(c['ops']) for c in cases), default=0)
+        h['max_len'] = max((len(c['ops']) for c in cases if not c.get('rt')), default=0)
         return dict(sorted(h.items()))
 
     def shrink(self, case, fails):
+        if case.get('rt'):
+            return dict(case, plays=common.shrink_list(case['plays'], lambda o: fails(dict(case, plays=o)), max_steps=40))
         ops = common.shrink_list(case['ops'], lambda o: fails(dict(case, ops=o)), max_steps=150)
         return dict(case, ops=ops)
